@@ -283,6 +283,7 @@ type hist struct {
 	dist    hx.Counter
 	signers bool
 	cur     config // the settings in force (changed by setProp)
+	spellRng *hx.Rng // decides the spelling (lower / upper-case bech32) of address strings
 }
 
 func (x *hist) blockCtx() sdk.Context {
@@ -362,9 +363,30 @@ func (x *hist) claim(v, k int, perm bool) {
 	x.record(fmt.Sprintf("OClaim %d %d %s", v, k, hx.B(perm)), jop{Op: "claim", V: v, K: k, Perm: &perm, Err: e}, res, "")
 }
 
+// spelling of the next address-typed string fields: whole-string upper-case bech32 is valid and decodes
+// to the same bytes; the model's operations carry no spelling, so any dependence on it is a mismatch
+var upperNext bool
+
+func spell(s string) string {
+	if upperNext {
+		return strings.ToUpper(s)
+	}
+	return s
+}
+
+func (x *hist) ownerMsgUpper(kind string, v int) {
+	upperNext = true
+	x.ownerMsg(kind, v)
+	upperNext = false
+}
+
 func (x *hist) ownerMsg(kind string, v int) {
 	if x.dead {
 		return // the chain has halted (or the sets already differ): the history ends here
+	}
+	if !upperNext && x.spellRng != nil && x.spellRng.Chance(25) {
+		upperNext = true
+		defer func() { upperNext = false }()
 	}
 	w := x.w
 	ms := slashingkeeper.NewMsgServerImpl(w.slk)
@@ -373,14 +395,17 @@ func (x *hist) ownerMsg(kind string, v int) {
 	switch kind {
 	case "pause":
 		m := slashingtypes.NewMsgPause(w.valAddrs[v])
+		m.ValidatorAddr = spell(m.ValidatorAddr)
 		signers = m.GetSigners()
 		f = func(c sdk.Context) error { _, err := ms.Pause(sdk.WrapSDKContext(c), m); return err }
 	case "unpause":
 		m := slashingtypes.NewMsgUnpause(w.valAddrs[v])
+		m.ValidatorAddr = spell(m.ValidatorAddr)
 		signers = m.GetSigners()
 		f = func(c sdk.Context) error { _, err := ms.Unpause(sdk.WrapSDKContext(c), m); return err }
 	case "activate":
 		m := slashingtypes.NewMsgActivate(w.valAddrs[v])
+		m.ValidatorAddr = spell(m.ValidatorAddr)
 		signers = m.GetSigners()
 		f = func(c sdk.Context) error { _, err := ms.Activate(sdk.WrapSDKContext(c), m); return err }
 	}
@@ -389,7 +414,11 @@ func (x *hist) ownerMsg(kind string, v int) {
 	}
 	res, e := x.runMsg(f)
 	opc := map[string]string{"pause": "OPause", "unpause": "OUnpause", "activate": "OActivate"}[kind]
-	x.record(fmt.Sprintf("%s %d", opc, v), jop{Op: kind, V: v, Err: e}, res, "")
+	note := ""
+	if upperNext {
+		note = "validator_addr in upper-case bech32"
+	}
+	x.record(fmt.Sprintf("%s %d", opc, v), jop{Op: kind, V: v, Err: e, Note: note}, res, "")
 }
 
 // newBlock: next block dt SECONDS later; newBlockNs: dt nanoseconds later
@@ -473,7 +502,11 @@ func (x *hist) proposal(kind string, v int) {
 	opc := ""
 	switch kind {
 	case "unjail":
-		content = stakingtypes.NewUnjailValidatorProposal(proposer, w.valAddrs[v], "ref")
+		uj := stakingtypes.NewUnjailValidatorProposal(proposer, w.valAddrs[v], "ref")
+		if x.spellRng != nil && x.spellRng.Chance(25) {
+			uj.ValAddr = strings.ToUpper(uj.ValAddr)
+		}
+		content = uj
 		opc = fmt.Sprintf("OUnjail %d", v)
 	case "reset":
 		content = slashingtypes.NewResetWholeValidatorRankProposal(proposer)
@@ -697,12 +730,13 @@ func main() {
 	T0, H0 := int64(1700000000)*1e9, int64(10)
 	initSnap := w.snap(base)
 
+	spellSrc := hx.NewRng(seed + 77)
 	newHist := func(cfg int) *hist {
 		c, _ := base.CacheContext()
 		cf := configs[cfg]
 		setProps(app, c, cf)
 		vs := tmtypes.NewValidatorSet([]*tmtypes.Validator{tmtypes.NewValidator(mustTm(w.keys[genID]), 1)})
-		return &hist{w: w, cfg: cfg, ctx: c, h: H0, t: T0, valset: vs, prev: initSnap, dist: dist, signers: true, cur: cf}
+		return &hist{w: w, cfg: cfg, ctx: c, h: H0, t: T0, valset: vs, prev: initSnap, dist: dist, signers: true, cur: cf, spellRng: spellSrc.Fork()}
 	}
 	finish := func(x *hist, kind string) {
 		cases = append(cases, fmt.Sprintf("Case %d %s", x.cfg, hx.List(x.steps)))
@@ -752,6 +786,15 @@ func main() {
 		finish(x, fmt.Sprintf("bnd:%s:%+dns", bc.kind, bc.d))
 	}
 	dist["boundary-stream:run"] = len(bndCases())
+	nLast := 0
+	for _, lc := range lastCases() {
+		x := newHist(0)
+		x.spellRng = nil
+		runLast(x, genID, lc, r)
+		finish(x, fmt.Sprintf("last:n%d:min%d:%s", lc.n, lc.minv, lc.kind))
+		nLast++
+	}
+	dist["last-validators-stream:run"] = nLast
 	dist["threshold-stream:run"] = len(tcs)
 	dist["threshold-stream:existing"] = nThr
 	dist["systematic:tuples-run"] = len(plan)
@@ -828,6 +871,9 @@ func kindClass(k string) string {
 	}
 	if strings.HasPrefix(k, "bnd:") {
 		return "boundary-stream"
+	}
+	if strings.HasPrefix(k, "last:") {
+		return "last-validators-stream"
 	}
 	return k
 }
